@@ -268,7 +268,7 @@ prop('C11',
 
 prop('C12',
      [filters.r12_1, filters.r12_2, filters.r12_3, filters.r12_4,
-      filters.r12_5, CUR_FILTER],
+      filters.r12_5, filters.r12_6, CUR_FILTER],
      undecided=['missing-data invariance (masked-array reduction '
                 'semantics)', 'permutation invariance over individuals',
                 'gradients of the KDE / mixture filters (softmax chain)'],
@@ -292,7 +292,7 @@ prop('C12',
 prop('C13',
      [layout.r13_1, noise.r13_3, layout.r02_3, CUR_FILTER, switch.r03_5,
       iface.r02_6, iface.r02_7, filters.r12_4, filters.r12_1, filters.r12_3,
-      filters.r12_5, reduced.r08_6],
+      filters.r12_5, filters.r12_6, reduced.r08_6],
      undecided=['numerical value of the posterior', 'ODE solution'],
      assumptions=TERM_ASSUME + ['numpy reshape/flatten are C-ordered'],
      technique='symbolic shape/layout interpretation of the filter '
